@@ -448,6 +448,40 @@ impl<'a> G<'a> {
         out
     }
 
+    /// Functions whose blocks fall through in different ways, called on several arguments so that
+    /// the same `Store` is reached along different paths (slot-alignment probes).
+    fn probe(&mut self) -> Vec<String> {
+        self.feat("alignment-probe");
+        let f = self.fresh("pb");
+        let k1 = self.r.range(0, 3);
+        let k2 = k1 + 1 + self.r.range(0, 2);
+        let x = self.int(1);
+        let y = self.int(1);
+        let z = self.int(1);
+        match self.r.below(4) {
+            0 => vec![
+                // last branch has a consequence and can fail: block falls through with nil
+                format!("{f} = #'int {{ a = ~ {{ | ={k1} => {x} | ={k2} => {y} }}, b = {z}, c = [b, 1] __integer_add__, [a, b, c] }}"),
+                format!("[{k1} {f}, {k2} {f}, {} {f}]", k2 + 1),
+            ],
+            1 => vec![
+                // a branch that binds, then evaluates to nil at run time, followed by a binding branch
+                format!("{f} = #['int, 'int] {{ | =[a, 0] a {{ ={k2} => {x} }} | =[b, c] [b, c] __integer_add__ }}"),
+                format!("[[{k2}, 0] {f}, [{k1}, 0] {f}, [{k1}, {k2}] {f}]"),
+            ],
+            2 => vec![
+                // nested: the falling-through block sits inside a tuple field inside a block
+                format!("{f} = #'int {{ =n, t = [n {{ ={k1} => {x} }}, n {{ | ={k2} => {y} | ={k1} => [] }}], u = {z}, [t, u, n] }}"),
+                format!("[{k1} {f}, {k2} {f}, {} {f}]", k2 + 3),
+            ],
+            _ => vec![
+                // mid-sequence failing typed match, then bindings
+                format!("{f} = #'int {{ =n, m = n {{ | ={k1} => 0x00 | ~ }}, m =('int)i, j = {z}, [i, j] }}"),
+                format!("[{k1} {f}, {k2} {f}]"),
+            ],
+        }
+    }
+
     fn process_template(&mut self) -> Vec<String> {
         self.feat("process");
         let a = self.int(1);
@@ -497,7 +531,7 @@ pub fn program(r: &mut Rng, ev: &mut Ev) -> String {
                 g.vars.push(Var { name: y, kind: Kind::Int });
             }
             7 if !last => {
-                let t = g.process_template();
+                let t = if g.r.chance(1, 2) { g.process_template() } else { g.probe() };
                 steps.extend(t);
             }
             _ => {
